@@ -20,6 +20,7 @@ import (
 	"github.com/go-kit/log"
 	frrv1beta1 "github.com/metallb/frr-k8s/api/v1beta1"
 	"go.universe.tf/metallb/internal/bgp"
+	"go.universe.tf/metallb/internal/bgp/community"
 	bgpfrr "go.universe.tf/metallb/internal/bgp/frr"
 	frrk8s "go.universe.tf/metallb/internal/bgp/frrk8s"
 	"go.universe.tf/metallb/internal/logging"
@@ -37,6 +38,7 @@ type c15recOp struct {
 }
 
 type c15recCase struct {
+	Debug    bool       `json:"reconciler_log_level_debug"`
 	Ops      []c15recOp `json:"ops"`
 	Readable []string   `json:"readable"`
 }
@@ -53,6 +55,9 @@ func c15recExec(res *verifrt.Result, c c15recCase) {
 	cat, advs := bgpfrr.VerifSessionCatalogue(), bgpfrr.VerifAdvCatalogue()
 	store := verifenv.NewStore()
 	r := &FRRK8sReconciler{Client: store, Logger: log.NewNopLogger(), NodeName: "node1", FRRK8sNamespace: "frr-k8s-system"}
+	if c.Debug {
+		r.LogLevel = logging.LevelDebug // the reconciler then also dumps the applied configuration (with passwords retracted)
+	}
 	r.configChangedChan = make(chan struct{}, 4096) // the debouncer is C19's subject: here its input is only counted
 	r.reconcileChan = make(chan event.GenericEvent, 1)
 	sm := frrk8s.NewSessionManager(log.NewNopLogger(), logging.LevelInfo, "node1", "frr-k8s-system")
@@ -63,6 +68,7 @@ func c15recExec(res *verifrt.Result, c c15recCase) {
 		r.UpdateConfig(i)
 	})
 	open := map[int]bgp.Session{}
+	accepted := map[int][]string{} // per open session: the prefixes of its last accepted Set
 	viol := func(sig, detail string) {
 		res.Violate(sig, detail+"\n  operations: "+strings.Join(c.Readable, " ; "), c)
 	}
@@ -85,15 +91,89 @@ func c15recExec(res *verifrt.Result, c c15recCase) {
 				viol("C15 resource: Set failed", err.Error())
 				return
 			}
+			accepted[op.Session] = nil
+			for _, a := range as {
+				accepted[op.Session] = append(accepted[op.Session], a.Prefix.String())
+			}
+		case "setbad":
+			// a request the session must refuse (an advertisement with 64 communities between two good ones): the
+			// session keeps what it advertised before
+			var as []*bgp.Advertisement
+			for j, ai := range c15recAdvSets[op.AdvSet] {
+				as = append(as, advs[ai].Adv())
+				if j == 0 {
+					big := advs[7].Adv()
+					for k := 0; k < 64; k++ {
+						cc, _ := community.New(fmt.Sprintf("65000:%d", k+100))
+						big.Communities = append(big.Communities, cc)
+					}
+					as = append(as, big)
+				}
+			}
+			if err := open[op.Session].Set(as...); err == nil {
+				viol("C15 resource: a Set with an advertisement of 64 communities was accepted", "")
+				return
+			}
 		case "close":
 			if err := open[op.Session].Close(); err != nil {
 				viol("C15 resource: Close failed", err.Error())
 				return
 			}
 			delete(open, op.Session)
+			delete(accepted, op.Session)
+		}
+		if op.Kind != "reconcile" && handed != nil {
+			for si := range c15recSessions {
+				addr := cat[c15recSessions[si]].Params.PeerAddress
+				want := map[string]bool{}
+				for _, p := range accepted[si] {
+					want[p] = true
+				}
+				var got []string
+				found := false
+				for _, rt := range handed.Spec.BGP.Routers {
+					for _, nb := range rt.Neighbors {
+						if nb.Address == addr {
+							found = true
+							got = append(got, nb.ToAdvertise.Allowed.Prefixes...)
+						}
+					}
+				}
+				_, isOpen := open[si]
+				if found != isOpen {
+					viol("C15 resource: neighbor list differs from the open sessions", fmt.Sprintf("%s listed=%v open=%v", addr, found, isOpen))
+					return
+				}
+				bad := len(got) != len(want)
+				for _, p := range got {
+					bad = bad || !want[p]
+				}
+				if bad {
+					after := "accepted-operations-only"
+					for _, o := range c.Ops[:i+1] {
+						if o.Kind == "setbad" {
+							after = "after-a-refused-set"
+						}
+					}
+					viol("C15 resource: allowed prefixes of a neighbor differ from its last accepted request "+after, fmt.Sprintf("%s: allowed %v, last accepted request %v", addr, got, accepted[si]))
+					return
+				}
+			}
+		}
+		switch op.Kind {
 		case "reconcile":
 			if _, err := r.Reconcile(context.Background(), ctrl.Request{NamespacedName: types.NamespacedName{Name: "metallb-node1", Namespace: "frr-k8s-system"}}); err != nil {
 				viol("C15 resource: reconcile failed", err.Error())
+				return
+			}
+			// the resource just written comes back as a watch event: a second reconcile follows, and must change nothing
+			w0 := store.Writes
+			if _, err := r.Reconcile(context.Background(), ctrl.Request{NamespacedName: types.NamespacedName{Name: "metallb-node1", Namespace: "frr-k8s-system"}}); err != nil {
+				viol("C15 resource: reconcile failed", err.Error())
+				return
+			}
+			if store.Writes != w0 {
+				viol("C15 resource: a reconcile without a new configuration wrote the resource again", fmt.Sprintf("writes %d -> %d", w0, store.Writes))
 				return
 			}
 			cur, _ := store.Peek("FRRConfiguration", "frr-k8s-system", "metallb-node1").(*frrv1beta1.FRRConfiguration)
@@ -143,7 +223,8 @@ func TestVerif_C15rec(t *testing.T) {
 		if len(ops) > 0 && !sinceRec {
 			// a sequence is executed when it ends in a reconcile (every prefix ending in one is its own sequence)
 			c15recExec(res, c15recCase{Ops: ops, Readable: readable})
-			res.Count("distinct_nontrivial", 1)
+			c15recExec(res, c15recCase{Ops: ops, Readable: readable, Debug: true})
+			res.Count("distinct_nontrivial", 2)
 		}
 		n := 0
 		for _, o := range ops {
@@ -181,6 +262,7 @@ func TestVerif_C15rec(t *testing.T) {
 			for ai := range c15recAdvSets {
 				next(c15recOp{Kind: "set", Session: si, AdvSet: ai}, fmt.Sprintf("%s.Set(adv set %v)", name, c15recAdvSets[ai]), open)
 			}
+			next(c15recOp{Kind: "setbad", Session: si, AdvSet: 2}, fmt.Sprintf("%s.Set(adv set %v with a 64-community advertisement in the middle: refused)", name, c15recAdvSets[2]), open)
 			o2 := map[int]bool{}
 			for k := range open {
 				if k != si {
